@@ -16,16 +16,19 @@ V(inv, d) == [tr |-> tr, line |-> l, inv |-> inv, d |-> d]
 BatchOf(x) == [objs |-> x.objs, links |-> [r \in Res |-> x.links[r]], ia |-> x.ia, iu |-> x.iu, id |-> x.id,
                gcur |-> x.gcur, gnew |-> x.gnew, tcur |-> x.tcur, tnew |-> x.tnew, full |-> x.full]
 
+(* a broken implementation yields thousands of verdicts: the first 60 are kept (the set is part of every state TLC fingerprints) *)
+Cap(s) == IF Cardinality(bad) >= 60 THEN bad ELSE s
+
 StepDeliver(x) ==
     LET e == x.e
         want == IF e.res \in FullRes THEN <<"full">> ELSE <<"partial">> IN
-    /\ bad' = bad
+    /\ bad' = Cap(bad
           \cup (IF x.acc # Accepted(e) THEN {V("Accepted", Key(e))} ELSE {})
           \* every accepted event puts one item of the right kind in the queue (<<"?">>: not recorded per event)
           \cup (IF x.q # <<"?">> /\ x.acc /\ x.q # want THEN {V("Notified", Key(e))} ELSE {})
           \cup (IF x.q # <<"?">> /\ ~x.acc /\ x.q # <<>> THEN {V("Notified", Key(e))} ELSE {})
           \* the events of one informer goroutine are handled in the order it delivers them
-          \cup (IF x.acc /\ x.p \in DOMAIN pos /\ pos[x.p] >= x.j THEN {V("Order", Key(e))} ELSE {})
+          \cup (IF x.acc /\ x.p \in DOMAIN pos /\ pos[x.p] >= x.j THEN {V("Order", Key(e))} ELSE {}))
     /\ pos' = IF x.acc THEN [q \in DOMAIN pos \cup {x.p} |-> IF q = x.p THEN x.j ELSE pos[q]] ELSE pos
     /\ IF x.acc THEN ch' = Handle(ch, e) /\ win' = Append(win, e) /\ queue' = Append(queue, want[1])
        ELSE UNCHANGED <<ch, win, queue>>
@@ -35,13 +38,13 @@ StepSwap(x) ==
     LET b == BatchOf(x.b)
         nrb == Append(rb, [b |-> b, win |-> win])
         k == Len(nrb) IN
-    /\ bad' = bad
+    /\ bad' = Cap(bad
           \cup (IF ~Listed(b, win) THEN {V("ExactlyOneBatch", ToString(b.objs))} ELSE {})
           \cup (IF ~Described(b, win) THEN {V("Described", ToString(<<b.ia, b.iu, b.id, b.gnew, b.tnew>>))} ELSE {})
           \cup (IF ~Chained(nrb, k) THEN {V("DataChained", ToString(<<b.gcur, b.tcur>>))} ELSE {})
           \* the batch a reconciliation holds is its own: events arriving later belong to the next one and leave it alone
-          \cup (IF ~x.stable THEN {V("ExactlyOneBatch", "the batch handed out before this one changed while it was held")} ELSE {})
-    /\ drift' = IF Listed(b, win) /\ Described(b, win) /\ Chained(nrb, k) /\ b # ch THEN drift \cup {V("BatchDiffers", ToString(b))} ELSE drift
+          \cup (IF ~x.stable THEN {V("ExactlyOneBatch", "the batch handed out before this one changed while it was held")} ELSE {}))
+    /\ drift' = IF Cardinality(drift) >= 60 THEN drift ELSE IF Listed(b, win) /\ Described(b, win) /\ Chained(nrb, k) /\ b # ch THEN drift \cup {V("BatchDiffers", ToString(b))} ELSE drift
     /\ rb' = nrb
     /\ ch' = NextCh(ch) /\ win' = <<>>
     /\ UNCHANGED <<batches, queue, hist, pos, tr>>
@@ -54,9 +57,9 @@ StepReset(x) ==
 (* totals of the queue items at the end of an execution *)
 StepCounts(x) ==
     LET nf == Cardinality({i \in 1..Len(queue) : queue[i] = "full"}) IN
-    /\ bad' = bad
+    /\ bad' = Cap(bad
           \cup (IF x.full # nf \/ x.partial # Len(queue) - nf THEN {V("Notified", ToString(<<x.full, x.partial, nf, Len(queue) - nf>>))} ELSE {})
-          \cup (IF win # <<>> THEN {V("ExactlyOneBatch", "accepted events in no batch: " \o ToString(Len(win)))} ELSE {})
+          \cup (IF win # <<>> THEN {V("ExactlyOneBatch", "accepted events in no batch: " \o ToString(Len(win)))} ELSE {}))
     /\ UNCHANGED <<vars, drift, rb, pos, tr>>
 
 TraceNext ==
